@@ -25,7 +25,21 @@ Proof.
 Qed.
 Print Assumptions C07_deployed_shutdown_decided.
 
-(* the WAL writer is closed after the buffer's Close and after the purge hook *)
+(* PRIMARY obligation on the table regenerated from cmd/arc: the WAL purge runs AFTER the buffer's
+   final flush, and it is skipped when a flush failure is recorded *)
+Theorem C07_deployed_purge_after_flush :
+  deployed_purge_after_flush = true /\ purge_guarded = true /\ runs_before "arrow-buffer" "wal-purge" registrations = true.
+Proof. vm_compute. repeat split. Qed.
+Print Assumptions C07_deployed_purge_after_flush.
+
+(* PRIMARY obligation on the maintenance tick as transcribed from the current main.go / recovery.go:
+   the failure branch does not purge by age before it replays, and a replayed file is deleted only
+   after FlushReplayed (ArrowBuffer.FlushAll) succeeded *)
+Theorem C07_deployed_tick : tick_purges_before_replay = false /\ tick_flushes_before_delete = true.
+Proof. vm_compute. split; reflexivity. Qed.
+Print Assumptions C07_deployed_tick.
+
+(* the WAL writer is closed after the buffer's Close and after the purge *)
 Theorem C07_deployed_wal_close_last : deployed_wal_close_last = true.
 Proof. vm_compute. reflexivity. Qed.
 Print Assumptions C07_deployed_wal_close_last.
